@@ -11,8 +11,12 @@ two non-adjacent faults inside one operation.  The operation must report the fai
 nothing observable may change, the repeated operation must return what the fault-free twin
 returned (same address, same wallet), operations that run undisturbed after faulted ones must
 return the twin's results too (a later NewAddress shows a stale in-memory key counter), and the
-state must equal the twin's after every operation and at the end.  Runs are also replayed on
-the extracted Ledger model (ocaml/C01 driver) and checked against the chain."""
+state must equal the twin's after every operation and at the end; at the end the WHOLE wallet
+database (every bucket, every key, read through the wallet's own database interface) must equal
+the twin's, except what differs between two fault-free replays (random salts, wall-clock
+fields).  A divergence noticed late is attributed by re-running the plan reduced to one faulted
+operation with the state compared after every operation.  Runs are also replayed on the
+extracted Ledger model (ocaml/C01 driver) and checked against the chain."""
 import json
 import os
 import re
@@ -26,6 +30,7 @@ TRUSTED = [
     "Go harness: harness/internal/dbwrap (database wrapper: numbers every call that has an error or iterator result, makes call k return an injected error without touching the real database; documented nearest-faithful behaviour for Commit / BeginTx / NewIterator), harness/internal/cfsim (script recorder/replayer, fault procedure, snapshots), harness/internal/sim + harness/internal/hist, harness/cmd/c18",
     "dbwrap fault sets (call k and call k+d of one operation, numbered in the faulted run), call descriptions (kind, two innermost wallet functions, short key) = the fault targets of the coverage-guided plans (harness/cmd/c18/guided.go: persistent worker processes, plans are a function of VERIF_SEED and the twins)",
     "background work is made replayable: the worker goroutine is held (at its next database call) while the API call that queued its task runs, and the harness' own polling reads are not numbered (cfsim.HoldBackground)",
+    "whole-database comparison at the end of a guided run (cfsim/store.go): keys / buckets whose content differs between two fault-free replays of the same script are not compared",
     "a FATAL log of the wallet (logrus exit) during a fault run is turned into 'the process stops here' (cfsim/fatal.go) and reported as a divergence",
     "not injected (documented in dbwrap): TopLevelBucket / FetchBucket / Bucket (answer nil for absent and error alike; callers dereference: C19), Rollback (result ignored by every caller), iterator stepping",
     "deterministic entropy: crypto/rand.Reader is replaced during CreateWallet so that a repeated CreateWallet creates the twin's wallet",
